@@ -483,6 +483,18 @@ pub fn c19(a: &vt100::Screen, b: &vt100::Screen) -> Option<Failure> {
     if a.rows_diff(b, 0, cols).any(|r| !r.is_empty()) {
         return fail("C19", "rows_diff-nonempty", "rows_diff non-empty".into());
     }
+    // every column window, aligned to wide characters or not: equal screens differ nowhere
+    for start in 0..cols.min(12) {
+        for width in [1u16, 2, cols.saturating_sub(start).max(1), cols] {
+            if a.rows_diff(b, start, width).any(|r| !r.is_empty()) {
+                return fail("C19", "rows_diff-window-nonempty", format!("rows_diff(_, {start}, {width}) non-empty on observably equal screens"));
+            }
+            let (x, y): (Vec<_>, Vec<_>) = (a.rows_formatted(start, width).collect(), b.rows_formatted(start, width).collect());
+            if x != y {
+                return fail("C19", "rows_formatted-window", format!("rows_formatted({start}, {width}): bytes differ on observably equal screens"));
+            }
+        }
+    }
     None
 }
 
